@@ -318,7 +318,7 @@ impl<const H: usize> Reader<H> {
     ) -> Result<Record<'_, H>, ReadError> {
         let record_header_buf = self
             .read_ahead_buf
-            .read(&self.file, offset, RECORD_HEAD_SIZE)?;
+            .read(&self.file, offset, RECORD_HEAD_SIZE, flushed_offset)?;
 
         if is_truncation_marker(&record_header_buf[..RECORD_HEAD_SIZE]) {
             return Err(ReadError::TruncationMarker { offset });
@@ -345,7 +345,7 @@ impl<const H: usize> Reader<H> {
 
         let payload = self
             .read_ahead_buf
-            .read(&self.file, payload_offset, payload_len)?;
+            .read(&self.file, payload_offset, payload_len, flushed_offset)?;
 
         let header = &payload[..H];
         let compressed_data = &payload[H..];
@@ -594,7 +594,13 @@ impl ReadAheadBuf {
         self.valid_len = 0;
     }
 
-    fn read(&mut self, file: &File, offset: u64, length: usize) -> Result<&[u8], ReadError> {
+    fn read(
+        &mut self,
+        file: &File,
+        offset: u64,
+        length: usize,
+        flushed_offset: u64,
+    ) -> Result<&[u8], ReadError> {
         let end_offset = offset + length as u64;
 
         // If offset is within the valid read-ahead range
@@ -604,7 +610,7 @@ impl ReadAheadBuf {
         }
 
         // Fill the read-ahead buffer for the requested offset & length
-        self.fill(file, offset, length)?;
+        self.fill(file, offset, length, flushed_offset)?;
 
         // Ensure we now have enough valid data
         if offset < self.offset || end_offset > (self.offset + self.valid_len as u64) {
@@ -619,7 +625,13 @@ impl ReadAheadBuf {
         Ok(&self.buf[start..start + length])
     }
 
-    fn fill(&mut self, file: &File, offset: u64, mut length: usize) -> Result<(), ReadError> {
+    fn fill(
+        &mut self,
+        file: &File,
+        offset: u64,
+        mut length: usize,
+        flushed_offset: u64,
+    ) -> Result<(), ReadError> {
         let end_offset = offset + length as u64;
 
         // Set the new read-ahead offset aligned to 64KB
@@ -647,7 +659,9 @@ impl ReadAheadBuf {
             total_read += bytes_read;
         }
 
-        self.valid_len = total_read;
+        // Bytes at or beyond the flushed offset are not stable yet (the writer may still be
+        // producing them), so they must not be served from the cache later on.
+        self.valid_len = total_read.min(flushed_offset.saturating_sub(self.offset) as usize);
 
         Ok(())
     }
